@@ -22,9 +22,12 @@
 (*                  readBuf the loop goes round and reads again, forever (ghost devSpin)       *)
 (*   DevNoUnblock - when g2 ends nothing wakes g1, which stays in udpConn.Read (ghost          *)
 (*                  devBlocked)                                                                *)
-(* Default cfgs describe the fixed code (both FALSE) and check <>returned strictly;            *)
-(* Relay_udp_found.cfg (both TRUE) checks <>(returned \/ deviation taken);                     *)
-(* Relay_udp_lasso.cfg (both TRUE, strict property) MUST fail: TLC exhibits the lasso.         *)
+(* Relay_udp.cfg (default) describes the patched code (both FALSE) and checks <>returned          *)
+(* strictly; Relay_udp_seeded.cfg (both TRUE = the code as found) checks                          *)
+(* <>(returned \/ devSpin \/ devBlocked); Relay_udp_lasso.cfg (both TRUE, strict property)        *)
+(* MUST fail: TLC exhibits the lasso.  Relay_udp_tmpl.cfg is the same with open bounds.            *)
+(* Not modelled: zero-length datagrams (dropped by g1, unrepresentable in the encoding), UDP        *)
+(* socket write errors other than "closed", a tunnel whose write side fails before its read side.  *)
 EXTENDS Naturals, Sequences, FiniteSets, TLC, Json
 
 CONSTANTS
